@@ -45,6 +45,16 @@ fn make_keys(kt: &str, rng: &mut Rng, n: usize) -> Vec<Vec<u8>> {
             "i64" if v.len() % 6 == 5 => util::gen_bytes([2usize, 4, 7, 16][v.len() % 4], rng.next() as u32, 0),
             "u64" => (rng.next() >> rng.below(60)).to_le_bytes().to_vec(),
             "i64" => ((rng.next() >> rng.below(60)) as i64).wrapping_neg().to_le_bytes().to_vec(),
+            // (the vu64 key type takes raw byte strings too: a complete code with bytes behind it, every sixth key)
+            "vu64" if v.len() % 6 == 5 => {
+                let mut k = decoder::vu_encode(rng.next() >> (30 + rng.below(30)));
+                if v.len() % 12 == 5 {
+                    k.push(0x33);
+                } else {
+                    k.extend_from_slice(&[0, 0]);
+                }
+                k
+            }
             "vu64" => {
                 // up to 8 bytes encoded (9-byte keys could move when offsets get wide)
                 decoder::vu_encode(rng.next() >> (8 + rng.below(55)))
